@@ -671,6 +671,12 @@ func genHistCase(r *Rng, id int, tier string) *Sx {
 					name = fmt.Sprintf("anp%d", r.Intn(3)) // sometimes an existing name: the insert is rejected
 				}
 				a := &ANP{Name: name, Prio: prios[anpN], Subject: genSubject(r), Ingress: genARules(r, false, "i"), Egress: genARules(r, false, "e")}
+				if anpN > 0 && r.P(12) {
+					// a priority already in use (rejected while the other policy is held), or outside the range
+					a.Prio = Pick(r, []int{prios[r.Intn(anpN)], prios[r.Intn(anpN)], -1, 1001})
+					c.Add(Ls(At("ins"), Obj{Kind: "anp", Anp: a}.Sx()))
+					break
+				}
 				anpN++
 				add(Obj{Kind: "anp", Anp: a})
 			}
